@@ -1,7 +1,8 @@
 /- Property C14: the property theorems (and nothing else). -/
 import Frugal.Proofs.DecodeRefine
 import Frugal.Proofs.ViewsLemmas
-import Frugal.Props.Instances
+import Frugal.Props.Inst.Params
+import Frugal.Props.Inst.F_skeleton_decoder
 namespace Frugal.C14
 open Frugal
 /-- a zero-length value never references the input buffer, nocopy or not -/
@@ -61,4 +62,10 @@ theorem view_is_exact (inp : Bytes) (off : Nat) (s : Bytes) :
 theorem base_never_views (S : Schema) (inp : Bytes) (k : Kind) (off : Nat) (s : Bytes) :
     viewsExact S inp (.base k) (.vstr off s) = false ∧ viewsExact S inp (.base k) (.vbin off s) = false := by
   constructor <;> simp [viewsExact, plain]
+/-- the theorems above that speak of `decodeM` / the reference reader are about the hand-written model
+    of `Decode` / `decodeType` / `decodeStringNoCopy` / `decodeFixedSizeTypes` / `skipUnknown`
+    (Decode.lean), written from exactly this control structure of the code (regenerated fingerprint) -/
+theorem decoder_model_written_from_this_code : Generated.facts.decoderSkeleton = Skeleton.decoder :=
+  Instances.skeleton_decoder
+
 end Frugal.C14
